@@ -70,6 +70,8 @@ fn main() {
         "C07" => props::c07::run(tier, seed, only),
         "C04" => props::c04::run(tier, seed, only),
         "C05" => props::c05::run(tier, seed, only.and_then(|s| s.parse().ok())),
+        "C12" => props::c12::run(tier, seed, only.and_then(|s| s.parse().ok())),
+        "C13" => props::c13::run(tier, seed, only),
         "C15" => props::c15::run(tier, seed, only),
         "C06" => props::c06::run(tier, seed, only.and_then(|s| s.parse().ok())),
         _ => {
